@@ -876,7 +876,9 @@ def main():
 
     if a.replay:
         rp = json.load(open(a.replay))
-        routes = [rp["input"]]
+        routes = list(rp["input"]["routes"]) if "routes" in rp["input"] else [rp["input"]]
+        for r_ in routes:
+            r_.setdefault("pert", [])
         base = []
     else:
         nbase = 10 if a.tier == "quick" else 120
